@@ -118,6 +118,12 @@ func ruleConfigFileTable(c *core.Ctx, rule string) {
 			s.SetData("staterr", outs[0])
 		case strings.HasPrefix(atom, "b(call:os.IsNotExist(§staterr"):
 			s.SetData("notexist", outs[0])
+		case strings.HasPrefix(atom, "b(call:errors.Is(§staterr,§@"):
+			// errors.Is(err, fs.ErrNotExist): the same question asked the newer way
+			id := strings.TrimSuffix(strings.TrimPrefix(atom, "b(call:errors.Is(§staterr,§@"), "))")
+			if strings.Contains(x.LocOf[id], "ErrNotExist") {
+				s.SetData("notexist", outs[0])
+			}
 		case atom == `b(flag:IsSet(c:"config"))`:
 			s.SetData("set", outs[0])
 		case strings.HasPrefix(atom, "b(§") && strings.Contains(atom, load.Params[len(load.Params)-1].Name()):
@@ -722,8 +728,8 @@ func ruleSettingSources(c *core.Ctx, rule string) {
 func init() {
 	register(&Property{
 		ID:    "C16",
-		Rules: []string{"C16-R1", "C16-R2", "C16-R3", "C16-R4", "C16-R5", "C16-R6", "C16-R7", "C16-R8", "C16-R9", "C16-R10", "C05-R3"},
-		Explain: "Decides the precedence machinery of settings: C16-R1 the configuration-file decision table of Options.Load over stat ∈ {ok, not-exist, other error} x IsSet(config) x useConfigFile (exists ⇒ read; named but missing ⇒ error; default missing ⇒ skipped; stat error ⇒ error); " +
+		Rules: []string{"C16-R1", "C16-R2", "C16-R3", "C16-R4", "C16-R5", "C16-R6", "C16-R7", "C16-R8", "C16-R9", "C16-R10", "C16-R11", "C16-R12", "C05-R3"},
+		Explain: "Decides the precedence machinery of settings: C16-R12 the name of the configuration file that is looked for, opened and read derives from the config setting only; C16-R11 a boolean flag that declares an environment variable is read by its value, not by IsSet alone (the library counts it as set whenever the variable exists); C16-R1 the configuration-file decision table of Options.Load over stat ∈ {ok, not-exist, other error} x IsSet(config) x useConfigFile (exists ⇒ read; named but missing ⇒ error; default missing ⇒ skipped; stat error ⇒ error); " +
 			"C16-R2 each of the five settings is written from its own flag only when the flag/environment is set or the value is still empty, a set flag always wins, and --today is parsed with the effective date format; " +
 			"C16-R3 flag declarations, README option listing, defaults and documented configuration keys agree, and every flag the code reads is declared; C16-R4 --no-database leaves no book to open; " +
 			"C16-R5 the opener, the resolver's bound and the keyword resolver's now are reached by their documented sources (flag, configuration file, default); " +
@@ -736,9 +742,11 @@ func init() {
 		Run: func(c *core.Ctx) {
 			ruleC05R3(c, "C05-R3", allowedClock) // the current date is read from the clock nowhere but at its default
 			ruleConfigWholeFile(c, "C16-R10")
+			ruleConfigFileName(c, "C16-R12")
 			ruleConfigFileTable(c, "C16-R1")
 			ruleGuardedOverrides(c, "C16-R2", "C16-R4")
 			ruleSettingTables(c, "C16-R3")
+			ruleEnvBoolFlags(c, "C16-R11")
 			ruleSettingSources(c, "C16-R5")
 			ruleConfigTarget(c, "C16-R6")
 			ruleResolverEntries(c, "C16-R7", false, true)
@@ -1122,8 +1130,108 @@ func fromOptionsSection(v ssa.Value, optT types.Type, depth int) bool {
 		}
 	case *ssa.Field:
 		return types.Identical(t.X.Type(), optT) || fromOptionsSection(t.X, optT, depth+1)
+	case *ssa.Parameter:
+		// the parameter of a closure that is handed to a helper of the tree, which calls it with (an adjusted copy
+		// of) what the helper itself was given: withOutputFile(name, o.ReporterConfig, func(rc reporter.Config) …)
+		fn := t.Parent()
+		if fn == nil || fn.Parent() == nil {
+			return false
+		}
+		pi := -1
+		for i, q := range fn.Params {
+			if q == t {
+				pi = i
+			}
+		}
+		found := false
+		for _, b := range fn.Parent().Blocks {
+			for _, in := range b.Instrs {
+				mc, ok := in.(*ssa.MakeClosure)
+				if !ok || mc.Fn != ssa.Value(fn) || mc.Referrers() == nil {
+					continue
+				}
+				for _, r := range *mc.Referrers() {
+					ci, ok := r.(ssa.CallInstruction)
+					if !ok {
+						continue
+					}
+					g := core.Callee(ci.Common())
+					if g == nil || len(g.Blocks) == 0 {
+						return false
+					}
+					for j, a := range ci.Common().Args {
+						if a != ssa.Value(mc) || j >= len(g.Params) {
+							continue
+						}
+						// inside g: every call of parameter j hands over, at position pi, a copy of one of g's own parameters
+						for _, gb := range g.Blocks {
+							for _, gin := range gb.Instrs {
+								gc, ok := gin.(ssa.CallInstruction)
+								if !ok || gc.Common().IsInvoke() {
+									continue
+								}
+								cv := gc.Common().Value
+								if ld, isLd := cv.(*ssa.UnOp); isLd && ld.Op == token.MUL {
+									if al, isAl := ld.X.(*ssa.Alloc); isAl {
+										cv = soleStoredValue(al)
+									}
+								}
+								if cv != ssa.Value(g.Params[j]) || pi >= len(gc.Common().Args) {
+									continue
+								}
+								k := paramCopiedFrom(g, gc.Common().Args[pi])
+								if k < 0 || k >= len(ci.Common().Args) || !fromOptionsSection(ci.Common().Args[k], optT, depth+1) {
+									return false
+								}
+								found = true
+							}
+						}
+					}
+				}
+			}
+		}
+		return found
 	}
 	return false
+}
+
+// soleStoredValue: the one value ever stored into the cell al (a captured or spilled parameter), or nil.
+func soleStoredValue(al *ssa.Alloc) ssa.Value {
+	var only ssa.Value
+	n := 0
+	if al.Referrers() == nil {
+		return nil
+	}
+	for _, r := range *al.Referrers() {
+		if st, ok := r.(*ssa.Store); ok && st.Addr == ssa.Value(al) {
+			n++
+			only = st.Val
+		}
+	}
+	if n == 1 {
+		return only
+	}
+	return nil
+}
+
+// paramCopiedFrom: v is parameter k of g, or the content of the cell g keeps parameter k in (possibly with some of
+// its fields assigned afterwards: an adjusted copy); -1 otherwise.
+func paramCopiedFrom(g *ssa.Function, v ssa.Value) int {
+	if ld, ok := v.(*ssa.UnOp); ok && ld.Op == token.MUL {
+		if al, ok := ld.X.(*ssa.Alloc); ok && al.Referrers() != nil {
+			for _, r := range *al.Referrers() {
+				if st, ok := r.(*ssa.Store); ok && st.Addr == ssa.Value(al) {
+					v = st.Val // the whole-value store (field stores go through FieldAddr)
+				}
+			}
+		}
+	}
+	for k, prm := range g.Params {
+		if v == ssa.Value(prm) {
+			return k
+		}
+	}
+	return -1
 }
 
 // ruleReporterDateFormat is C14-R6: when Options.Load succeeds, the date layout
